@@ -51,8 +51,18 @@ def version(rng):
 def record(rng):
     from cryptoparser.tls.record import TlsRecord
     from cryptoparser.tls.subprotocol import TlsContentType
-    n = rlen(rng, 300) if rng.random() < 0.97 else rng.choice([65535, 16384, 16385])
+    # every 6th record is a large one, cycling through the boundaries a length field or an implementation
+    # limit could sit at (2^14, 2^14+2048 = the TLS 1.2 ciphertext maximum, 2^15, the 16-bit maximum)
+    _RECORD_CALLS[0] += 1
+    if _RECORD_CALLS[0] % 6 == 0:
+        n = _BIG_RECORDS[(_RECORD_CALLS[0] // 6) % len(_BIG_RECORDS)]
+    else:
+        n = rlen(rng, 300)
     return TlsRecord(rbytes(rng, n), version(rng), rng.choice(list(TlsContentType)))
+
+
+_RECORD_CALLS = [0]
+_BIG_RECORDS = [16384, 16385, 18432, 18433, 20000, 32767, 32768, 65535]
 
 
 def alert(rng):
